@@ -297,7 +297,8 @@ class Array:
             if name_value is None:
                 raise ValueError(f"Cannot extend from array with typecode {iterable.typecode}.")
             other_dtype = dtype_register.get_dtype(*name_value, scale=None)
-            if self._dtype.name != other_dtype.name or self._dtype.bitlength != other_dtype.bitlength:
+            # The width is taken from the array itself as the size of 'l' and 'L' items is platform dependent.
+            if self._dtype.name != other_dtype.name or self._dtype.bitlength != iterable.itemsize * 8:
                 raise ValueError(
                     f"Cannot extend an Array with format '{self._dtype}' from an array with typecode '{iterable.typecode}'.")
             self.data += iterable.tobytes()
